@@ -155,3 +155,14 @@ def repo_tests_under_monitor(ctx, prop, kinds):
     for f in data.get('failures', []):
         if f['kind'] in kinds:
             ctx.violation('%s:repo_tests:%s' % (prop, f['kind']), 'while running %s: %s' % (f.get('test'), f['msg']), f)
+
+
+def strip_debug(msg):
+    """A message without the debug log that debug=True appends (and without the separator before it)."""
+    k = msg.find('<pre>MITx Grading Library')
+    if k < 0:
+        return msg
+    head = msg[:k]
+    while head.endswith('<br/>\n') or head.endswith('\n'):
+        head = head[:-6] if head.endswith('<br/>\n') else head[:-1]
+    return head
